@@ -140,12 +140,25 @@ def real_stream(chk, rng, n, stats):
                 spec.append((d + "/" + nm, "l", rng.choice(["ROOT/out", "../" * (d.count("/") + 1) + "out"])))
                 if mode == "path" and rng.random() < 0.6:
                     tpl = "moved/%Name()"      # the destination lies inside: only the test on the source's real directory can refuse
+        forced = []
+        if rng.random() < 0.3:
+            # an entry named on the command line that is itself a symbolic link to a file (or directory) OUTSIDE: the link is
+            # the entry, its own directory the input directory
+            d = rng.choice(inputs)
+            nm = rng.choice(["xl", "el", "0l"])
+            if not any(p == d + "/" + nm for p, _, _ in spec):
+                up = "../" * (d.count("/") + 1)
+                spec.append((d + "/" + nm, "l", rng.choice(["ROOT/out/keep.txt", up + "out/keep.txt", up + "out"])))
+                forced.append(d + "/" + nm)
         with Sandbox() as root:
             pipe.materialise(root, spec)
             snap0, ids = pipe.id_map(root)
             init = pipe.canon(snap0, ids, root)
-            args = []
+            args = list(forced)
+            stats["real_stream_explicit_outward_link"] = stats.get("real_stream_explicit_outward_link", 0) + len(forced)
             for d in inputs:
+                if forced and rng.random() < 0.5:
+                    continue
                 args.append(d)
                 ents = [p for p, v in init.items() if p.startswith(d + "/") and p.count("/") == d.count("/") + 1]
                 rng.shuffle(ents)
